@@ -477,6 +477,30 @@ func catalogue() []*deviant {
 		}
 		return err
 	}})
+	add(&deviant{name: "linkerr-wrong-new", mapErr: func(op string, err error) error {
+		if e, ok := err.(*hackpadfs.LinkError); ok {
+			return &hackpadfs.LinkError{Op: e.Op, Old: e.Old, New: e.Old, Err: e.Err}
+		}
+		return err
+	}})
+	add(&deviant{name: "linkerr-wrong-old", mapErr: func(op string, err error) error {
+		if e, ok := err.(*hackpadfs.LinkError); ok {
+			return &hackpadfs.LinkError{Op: e.Op, Old: e.New, New: e.New, Err: e.Err}
+		}
+		return err
+	}})
+	add(&deviant{name: "linkerr-wrong-op", mapErr: func(op string, err error) error {
+		if e, ok := err.(*hackpadfs.LinkError); ok {
+			return &hackpadfs.LinkError{Op: "frobnicate", Old: e.Old, New: e.New, Err: e.Err}
+		}
+		return err
+	}})
+	add(&deviant{name: "linkerr-as-patherror", mapErr: func(op string, err error) error {
+		if e, ok := err.(*hackpadfs.LinkError); ok {
+			return &hackpadfs.PathError{Op: e.Op, Path: e.Old, Err: e.Err}
+		}
+		return err
+	}})
 	add(&deviant{name: "err-path-empty", mapErr: func(op string, err error) error {
 		if e, ok := err.(*hackpadfs.PathError); ok {
 			return &hackpadfs.PathError{Op: e.Op, Path: "", Err: e.Err}
